@@ -87,6 +87,56 @@ def nonneg(st, aff):
     return False
 
 
+def infeasible_between(st, a, b):
+    """DateTime::duration_between orders the two values with cmp::min / cmp::max (their cmp is instant order, C03). A path is
+    infeasible when its branch conditions contradict that order: with I(lower) <= I(upper) and both time-of-day fields in
+    [0, 24 h), upper.days - lower.days < 0 is impossible, and so is equal days with lower.nanoseconds > upper.nanoseconds;
+    the two picks must also be complementary (min picks one argument, max the other, equal instants aside)"""
+    picks = [e for e in st.trace if isinstance(e, tuple) and e and e[0] == 'minmax']
+    if len(picks) != 2 or picks[0][1] != 'min' or picks[1][1] != 'max':
+        return False
+    (_m, _k, lo_idx, o1), (_m2, _k2, hi_idx, o2) = picks
+    if o1 != o2:
+        return True                     # the same comparison cannot have two outcomes
+    lower, upper = (a, b) if lo_idx == 0 else (b, a)
+    if lo_idx == hi_idx and o1 != 1:
+        return False
+    dl, du = lower[2][0][1], upper[2][0][1]
+    nl, nu = lower[2][1][1], upper[2][1][1]
+    rd = D.rel_get(st, du, dl)
+    # the code's own variables: days = upper.days - lower.days (sign through unsigned_abs), nanos borrow test
+    diff = D.aff_add(D.aff_of(du), D.aff_of(dl), -1)
+    neg_days = False
+    for v in vids_equal_to(st, diff):
+        l_, h_ = D.get_iv(st, v)
+        if h_ < 0:
+            neg_days = True
+    for one in (1, -1):
+        for v in vids_equal_to(st, D.aff_add(diff, D.aff_const(-1))):       # days - 1 after the borrow
+            l_, h_ = D.get_iv(st, v)
+            if h_ < 0 and '>' in D.rel_get(st, nl, nu) and not (D.rel_get(st, nl, nu) - frozenset('>')):
+                neg_days = True          # days - 1 < 0 with a borrow: days == 0 and lower.nanos > upper.nanos contradicts the order
+    if rd <= frozenset('<'):
+        return True
+    if neg_days:
+        return True
+    # a difference x - y + c whose interval on this path contradicts the ordering fact between x and y
+    for v, (l_, h_) in list(st.iv.items()):
+        f = D.AFF.get(v)
+        if f is None or f.mod or len(f.co) != 2 or sorted(f.co.values()) != [-1, 1]:
+            continue
+        (x,) = [k for k, c in f.co.items() if c == 1]
+        (y,) = [k for k, c in f.co.items() if c == -1]
+        if x not in st.iv or y not in st.iv:
+            continue
+        r = D.rel_get(st, x, y)
+        lo_b = f.c0 + (1 if r <= frozenset('>') else 0) if r <= frozenset('>=') else None
+        hi_b = f.c0 - (1 if r <= frozenset('<') else 0) if r <= frozenset('<=') else None
+        if (lo_b is not None and h_ < lo_b) or (hi_b is not None and l_ > hi_b):
+            return True
+    return False
+
+
 def check_since(ctx, N, fn, U, floor_inst=1):
     I = N.I
     n = ok = 0
@@ -144,7 +194,7 @@ def check(ctx):
         N.run(fn, variants=('fixed',))
         check_since(ctx, N, fn, NPD)
     # duration_between: the absolute difference of the two instants (hence symmetric): secs * 1e9 + subsec == |I(a) - I(b)|
-    for ty in ('date::Date', 'time::Time'):     # DateTime::duration_between needs the order established by cmp::min/max: not decided
+    for ty in ('date::Date', 'time::Time', 'datetime::DateTime'):
         fn = f'{ty}::duration_between'
         if not ctx.anchor(I.bodies, fn, 'C06 duration_between'):
             continue
@@ -153,6 +203,8 @@ def check(ctx):
         for args, st0, outs in N.results.get(fn, []):
             a, b = deref(I, st0, args[0]), deref(I, st0, args[1])
             for st, rv in outs:
+                if ty == 'datetime::DateTime' and infeasible_between(st, a, b):
+                    continue
                 n += 1
                 if rv[0] != 's' or rv[2][0][0] != 'i' or rv[2][1][0] != 'i':
                     ctx.finding(f'C06:BETWEEN|{fn}', 'duration_between is the absolute difference', I.bodies[fn]['span'], f'{fn}: the returned Duration is not tracked exactly')
@@ -162,10 +214,13 @@ def check(ctx):
                 tb, _ = parts(I, st, b, 1)
                 delta = D.aff_add(ta, tb, -1)
                 good = False
+                picks = [e for e in st.trace if isinstance(e, tuple) and e and e[0] == 'minmax']
+                order = picks[0][3] if picks else None       # outcome of DateTime::cmp(self, compare): instant order (C03)
                 for sign in (1, -1):
                     if D.aff_equiv(tot, D.aff_scale(delta, sign), 0, st=st):
                         sub = D.get_iv(st, rv[2][1][1])
-                        if nonneg(st, D.aff_scale(delta, sign)) and 0 <= sub[0] and sub[1] < 10**9:
+                        by_order = order is not None and (order == 1 or (order == 2 and sign == 1) or (order == 0 and sign == -1))
+                        if (by_order or nonneg(st, D.aff_scale(delta, sign))) and 0 <= sub[0] and sub[1] < 10**9:
                             good = True
                 if good:
                     ok += 1
